@@ -464,3 +464,121 @@ def c14_7(R):
 def c14_8(R):
     n = check_getters(R, ("mtu::",))
     R.floor("SegmentSizes accessors", n, 2)
+
+
+HEADROOM = 48  # IPV4_HEADER + UDP_HEADER + UTP_HEADER: the least that SegmentSizes::new subtracts from the u16 link MTU (C14.1), so max_ss <= 65535 - 48
+
+
+def _u16_ub(b, op, depth=0):
+    """symbolic upper bound of a u16 expression in mtu.rs: ("const", c) | ("min", c) [<= min_ss + c] | ("max", c) [<= max_ss + c] | ("diff",) [<= max_ss - min_ss] | None"""
+    if depth > 8:
+        return None
+    if op.kind == "const":
+        return ("const", op.scalar) if isinstance(op.scalar, int) else None
+    t = trace(b, op, through_casts=False)
+    f = [x for x in t.fields if not x.startswith("tuple.")]
+    if f:
+        if f[-1] == "SegmentSizes.max_ss":
+            return ("max", 0)
+        if f[-1] == "SegmentSizes.min_ss":
+            return ("min", 0)
+        return None
+    if t.kind == "const":
+        c = t.root[1]
+        return ("const", c.scalar) if isinstance(getattr(c, "scalar", None), int) else None
+    if t.kind == "multi":
+        vals = []
+        for d in t.root[3]:
+            if isinstance(d, Stmt) and d.rv.kind == "use":
+                vals.append(_u16_ub(b, d.rv.ops[0], depth + 1))
+            else:
+                vals.append(None)
+        if vals and all(v is not None and v[0] == "const" for v in vals):
+            return ("const", max(v[1] for v in vals))
+        return None
+    if t.kind == "rv" and t.root[1].rv.kind == "bin":
+        rv = t.root[1].rv
+        x, y = _u16_ub(b, rv.ops[0], depth + 1), _u16_ub(b, rv.ops[1], depth + 1)
+        op_ = rv.op.replace("WithOverflow", "").replace("Unchecked", "")
+        if op_ == "Sub":
+            if x == ("max", 0) and y == ("min", 0):
+                return ("diff",)
+            return x  # subtraction only lowers an upper bound (underflow is judged at the Sub itself)
+        if op_ in ("Div", "Shr"):
+            if rv.ops[1].kind == "const" and isinstance(rv.ops[1].scalar, int) and rv.ops[1].scalar >= 1:
+                return x
+            return None
+        if op_ == "Add":
+            return _u16_add(x, y)
+    if t.kind == "call":
+        sel = select_minmax(b, op)
+        if sel is not None and sel[0] == "min":
+            return None
+    return None
+
+
+def _u16_add(x, y):
+    if x is None or y is None:
+        return None
+    if x[0] == "const" and y[0] == "const":
+        return ("const", x[1] + y[1])
+    for a, c in ((x, y), (y, x)):
+        if a[0] in ("min", "max") and c[0] == "const":
+            return (a[0], a[1] + c[1])
+        if a == ("min", 0) and c == ("diff",):
+            return ("max", 0)
+    return None
+
+
+AUDITED_U16_SUB = {
+    # closure `calc` of SegmentSizes::new: mtu - ip_header_size - UTP_HEADER - UDP_HEADER.  Both call sites pass a value >= ip + UDP + UTP + 1: link_mtu is clamped up to exactly that
+    # with .max(..) first, and min_mtu = min(576 | 1280, link_mtu) with 576 / 1280 above the sum of the headers.
+    "mtu::SegmentSizes::new::{closure#0}": 3,
+}
+
+
+@rule("C14.9", ["C14", "C10"], ["E5", "E8"], "the probe-size arithmetic cannot leave the u16 range",
+      "link_mtu, min_ss and max_ss are u16 and a loopback-sized link MTU (65535) is a legal setting. Every checked u16 addition / subtraction in mtu.rs is bounded symbolically from min_ss <= max_ss (C14.7) and "
+      "max_ss <= 65535 - 48 (the headers SegmentSizes::new subtracts; segments never exceed max_ss, C14.1): max_ss - min_ss cannot underflow, min_ss + (max_ss - min_ss) / k <= max_ss, a bound of the "
+      "form max_ss + c is in range for c <= 48, constants are summed. An addition whose operands are only known to be u16 each (e.g. min_ss + max_ss) overflows for link MTUs above 32 KiB: a panic in "
+      "the connection task in checked builds, an undersized 'probe' that stalls the search otherwise. The three subtractions in new's calc closure are discharged by the audited clamp.")
+def c14_9(R):
+    F = R.facts
+    n = 0
+    audited = {}
+    for b in F.bodies(lambda nm: nm.startswith("mtu::")):
+        for s in b.stmts():
+            if s.rv is None or s.rv.kind != "bin" or s.is_tracing:
+                continue
+            op_ = s.rv.op
+            if op_ not in ("AddWithOverflow", "SubWithOverflow", "MulWithOverflow", "Add", "Sub", "Mul"):
+                continue
+            tys = [b.local_ty(o.place.local) if o.place is not None and o.place.is_local else o.ty for o in s.rv.ops]
+            if "u16" not in tys:
+                continue
+            n += 1
+            x, y = _u16_ub(b, s.rv.ops[0]), _u16_ub(b, s.rv.ops[1])
+            import re as _re
+            dx, dy = (_re.sub(r"_\d+", "_", trace(b, o).describe()) for o in s.rv.ops)
+            if op_.startswith("Sub"):
+                if x == ("max", 0) and y == ("min", 0):
+                    R.ok("u16-in-range", b.name, "max_ss - min_ss: min_ss <= max_ss (C14.7)")
+                elif b.name in AUDITED_U16_SUB:
+                    audited[b.name] = audited.get(b.name, 0) + 1
+                else:
+                    R.fail([b.name, "u16-sub-may-underflow", dx, dy], "a u16 subtraction in the MTU arithmetic whose right side is not known to be the smaller: underflow panics the connection task (checked build) or yields an absurd segment size", where=s.where(), instance="u16-in-range")
+            elif op_.startswith("Add"):
+                r = _u16_add(x, y)
+                if r is not None and ((r[0] == "const" and r[1] <= 65535) or (r[0] in ("min", "max") and r[1] <= HEADROOM)):
+                    R.ok("u16-in-range", b.name, "%s + %s <= %s" % (dx, dy, "%d" % r[1] if r[0] == "const" else "%s_ss + %d" % (r[0], r[1])))
+                else:
+                    R.fail([b.name, "u16-add-may-overflow", dx, dy], "the sum %s + %s is only bounded by 2 * 65535: it leaves the u16 range for large (loopback-sized) link MTUs - the midpoint must be formed as "
+                           "min_ss + (max_ss - min_ss) / 2" % (dx, dy), where=s.where(), instance="u16-in-range")
+            else:
+                R.fail([b.name, "u16-mul", dx, dy], "a u16 multiplication in the MTU arithmetic has no bound here", where=s.where(), instance="u16-in-range")
+    for name, cnt in sorted(audited.items()):
+        if cnt <= AUDITED_U16_SUB[name]:
+            R.ok("u16-in-range", name, "%d audited subtraction(s): argument clamped to > the headers first" % cnt)
+        else:
+            R.fail([name, "u16-sub-beyond-audited"], "more u16 subtractions in %s than were audited (%d > %d)" % (name, cnt, AUDITED_U16_SUB[name]), instance="u16-in-range")
+    R.floor("checked u16 additions / subtractions in mtu.rs", n, 6)
